@@ -58,13 +58,14 @@ def _bound_names(node):
 
 
 class Facts(object):
-    def __init__(self, func, al=None, kill=None, include_exc=True, textfn=None):
+    def __init__(self, func, al=None, kill=None, include_exc=True, textfn=None, nonnull=None):
         """kill(node, fact) -> True if executing `node` invalidates `fact`
         (fact = (pol, text, names)); name re-binding is always applied."""
         self.func = func
         self.g = cfgmod.cfg_of(func)
         self.al = al if al is not None else norm.aliases(func.node)
         self.kill = kill
+        self.nonnull = nonnull   # nonnull(call) -> True if the call cannot return None: `x = call` then establishes (F, "(None is x)")
         self.textfn = textfn or (lambda e: norm.canon(e, self.al))
         self._names = {}
         # a state is a bounded disjunction: a frozenset of alternatives, each a frozenset of facts.  Joins keep the
@@ -117,6 +118,10 @@ class Facts(object):
                 and isinstance(a.value, ast.Constant) and isinstance(a.value.value, bool):
             flag = ("T" if a.value.value else "F", a.targets[0].id)
             self._names.setdefault(flag[1], frozenset([flag[1]]))
+        if self.nonnull is not None and node.kind == "stmt" and isinstance(a, ast.Assign) and len(a.targets) == 1 \
+                and isinstance(a.targets[0], ast.Name) and isinstance(a.value, ast.Call) and self.nonnull(a.value):
+            flag = ("F", "(None is %s)" % a.targets[0].id)
+            self._names.setdefault(flag[1], frozenset([a.targets[0].id]))
         res = set()
         for alt in state:
             out = []
